@@ -70,14 +70,32 @@ def _trailing_backslashes_regex(m):
 
 _sub_re = Replacer()
 _sub_re.add("^RE:", "")
+_sub_re.add(r"\\.", r"\&")  # keep anything backslashed (an escaped paren is not a group)
 _sub_re.add("\\((?!\\?)", "(?:")
 _sub_re.add("\\(\\?P<.*>", _invalid_regex("(?:"))
 _sub_re.add("\\(\\?P=[^)]*\\)", _invalid_regex(""))
 _sub_re.add(r"\\+$", _trailing_backslashes_regex)
 
 
+_re_global_flags = re.compile(r"\(\?([aiLmsux]+)\)")
+
+
+def _translate_re(pattern):
+    """Translate a RE: pattern.
+
+    The result is embedded in a larger regex, where global inline flags such
+    as ``(?i)`` are only accepted at the very start, so leading global flags
+    are turned into flags scoped to this pattern.
+    """
+    body = _sub_re(pattern)
+    m = _re_global_flags.match(body)
+    if m:
+        body = f"(?{m.group(1)}:{body[m.end():]})"
+    return body
+
+
 _sub_fullpath = Replacer()
-_sub_fullpath.add(r"^RE:.*", _sub_re)  # RE:<anything> is a regex
+_sub_fullpath.add(r"^RE:.*", _translate_re)  # RE:<anything> is a regex
 _sub_fullpath.add(r"\[\^?\]?(?:[^\]\[]|\[:[^\]]+:\])+\]", _sub_group)  # char group
 _sub_fullpath.add(r"(?:(?<=/)|^)(?:\.?/)+", "")  # canonicalize path
 _sub_fullpath.add(r"\\.", r"\&")  # keep anything backslashed
@@ -291,3 +309,15 @@ class _OrderedGlobster(Globster):
 
 
 normalize_pattern = _globbing_rs.normalize_pattern
+
+
+def normalize_ignore_pattern(pattern):
+    """Normalize an ignore pattern that may carry a '!' or '!!' prefix.
+
+    The prefix is not part of the pattern proper: ``!RE:...`` is an exception
+    whose pattern is a regular expression and has to be normalized as one.
+    """
+    for prefix in ("!!", "!"):
+        if pattern.startswith(prefix):
+            return prefix + normalize_pattern(pattern[len(prefix) :])
+    return normalize_pattern(pattern)
